@@ -65,13 +65,13 @@ for _v in ("v5", "v7"):
             tier="quick" if _c == 2 else "thorough",
             desc="%s common view with %d records: version, timestamp, per-record projection in order, MACs None" % (_v.upper(), _c),
             bounds={"records": _c}))
-reg(["C13"], H("fixed::error_common", unwind=3, timeout=300, mem_gb=2,
+reg(["C13"], H("fixed::error_common", unwind=3, timeout=600, mem_gb=10,
     desc="Error packet converts to Err", bounds={}))
 
-for _v, _rec in (("v5", 48), ("v7", 52)):
-    reg(["C03", "C02", "C01"], H("fixed::%s_count_around_30" % _v, unwind=35, loops=[(r"fixed::|nfv5fixed", 1700)], timeout=2400, mem_gb=20, fs=2048,
-        desc="%s::parse with header.count symbolic in 29..=33 over 33 patterned records: decoded records == count, packet ends at 24+%d*count" % (_v.upper(), _rec),
-        bounds={"count": "29..=33 (symbolic)", "record_bytes": "fixed pattern (concrete)"}))
+for _nm, _c, _tier in (("v5_count_30", 30, "thorough"), ("v5_count_31", 31, "quick"), ("v5_count_300", 300, "thorough"), ("v7_count_31", 31, "quick"), ("v7_count_257", 257, "thorough")):
+    reg(["C03", "C02", "C01"], H("fixed::" + _nm, unwind=_c + 2, loops=[(r"nfv5fixed", 52 * _c + 40)], timeout=2400, mem_gb=20, fs=32768, tier=_tier,
+        desc="%s::parse with header.count written = %d over exactly %d patterned records + 5 trailing bytes: decoded records == count, packet ends at 24+rec*count" % (_nm[:2].upper(), _c, _c),
+        bounds={"count": _c, "record_bytes": "fixed pattern (concrete), last trailing byte symbolic"}))
 
 
 # ---------------------------------------------------------------- K: field kernels
@@ -122,10 +122,10 @@ for _nm, _shape, _tier in (("1_1", "1 scope + 1 option field + 2 padding", "quic
 reg(["C04", "C06", "C07", "C01"], H("s9::s_v9_data_dispatch", unwind=9, timeout=1200, mem_gb=10,
     desc="v9::FlowSet::parse, data id 300 vs symbolic template/options-template ids: dispatch order, consumption, unknown id => Err, caches unchanged",
     bounds={"body_bytes": "<=7", "cached": "1 template + 1 options template, symbolic ids"}, assumptions=[_D9]))
-for sfx, what in (("t", "template id 0"), ("o", "options-template id 1"), ("d", "data id 300")):
+for sfx, what in (("t", "template id 0, length 11"), ("t_max", "template id 0, length 65535"), ("o", "options-template id 1, length 13"), ("d", "data id 300, length 11"), ("d_max", "data id 300, length 65535")):
     reg(["C14", "C06"], H("s9::s_v9_truncated_" + sfx, unwind=5, timeout=900, mem_gb=8,
         desc="v9::FlowSet::parse with declared length > available bytes (%s): Err, caches unchanged" % what,
-        bounds={"available": 10, "declared_length": "11..=65535"}, assumptions=[_D9]))
+        bounds={"available": 10, "declared_length": "written"}, assumptions=[_D9]))
 
 
 # ---------------------------------------------------------------- D: V9 data records
@@ -136,9 +136,10 @@ reg(["C04", "C01"], H("d9::d_v9_two_fields", unwind=4, timeout=2400, mem_gb=30, 
 reg(["C04", "C01"], H("d9::d_v9_three_records", unwind=5, timeout=2400, mem_gb=30,
     desc="v9::Data::parse, one 2-byte field, 7-byte body: 3 records + 1 padding byte, values in order",
     bounds={"body_bytes": 7, "fields": 1, "records": 3}, assumptions=[_K9]))
-reg(["C01"], H("d9::d_v9_zero_size_template", unwind=4, timeout=1200, mem_gb=10,
-    desc="v9::Data::parse under a cached template of total length 0 (no fields, or one zero-length field): no panic, no records",
-    bounds={"body_bytes": 3, "fields": "0..=1"}, assumptions=[_K9]))
+for _fc in (0, 1, 2):
+    reg(["C01"], H("d9::d_v9_zero_size_template_%d" % _fc, unwind=5, timeout=1200, mem_gb=10, tier="quick" if _fc == 1 else "thorough",
+        desc="v9::Data::parse under a cached template of total length 0 (%d zero-length fields): no panic, no records, body is padding" % _fc,
+        bounds={"body_bytes": 3, "fields": _fc}, assumptions=[_K9]))
 
 
 # ---------------------------------------------------------------- W: parse_bytes
